@@ -24,6 +24,15 @@ def norm(text):
     return ast.unparse(ast.parse(text, mode='eval').body)
 
 
+def snorm(text):
+    """canonical spelling of a python statement given as text"""
+    return ast.unparse(ast.parse(text))
+
+
+def stmt_is(node, text):
+    return ast.unparse(node) == snorm(text)
+
+
 def env(**kw):
     return dict(kw)
 
